@@ -75,6 +75,10 @@ Step(cfg, g, e, obs) ==
          ELSE IF g.pend # <<>> /\ Msg(e) = Head(g.pend)
                 THEN [base EXCEPT !.pend = Tail(g.pend), !.expect = ApplyChange(g.sb, Head(g.pend))]
                 ELSE base
+    [] e.op = "quiesce" ->   \* end-to-end runs: the standby's own loop has the stream attached and a marker
+                             \* change pushed after all others has been applied by the standby
+         IF e.ok THEN [base EXCEPT !.phase = "streaming", !.pend = <<>>] ELSE [base EXCEPT !.phase = "down", !.pend = <<>>]
+    [] e.op \in {"burst", "cut"} -> [base EXCEPT !.phase = "down", !.pend = <<>>]   \* end-to-end runs: nothing is claimed in between
     [] OTHER -> base
 
 \* n = [act, sb, inbox, ...]  tables as sequences; inbox = stream messages received but not yet handed over
